@@ -32,10 +32,13 @@ const (
 	dChanState
 	dCallbackFunc
 	dGeneric
+	dIfaceValue
+	dOnce
+	dStructFunc
 	nDefKinds
 )
 
-var defKindName = [...]string{"named-func", "method", "closure-var", "counter-closure", "method-value", "chan-func", "defer-func", "global-counter", "global-map", "call-chain", "locked-func", "chan-state", "callback-func", "generic-method"}
+var defKindName = [...]string{"named-func", "method", "closure-var", "counter-closure", "method-value", "chan-func", "defer-func", "global-counter", "global-map", "call-chain", "locked-func", "chan-state", "callback-func", "generic-method", "iface-value", "once-init", "struct-func-field"}
 
 type c10Def struct {
 	kind    int
@@ -82,6 +85,15 @@ func (d *c10Def) src(j int) string {
 		// a generic type with methods; GI uses the instance St[int]; other
 		// instances are first mentioned by later evaluations (genericLit)
 		return fmt.Sprintf("type St%d[T any] struct{ xs []T }\nfunc (s *St%d[T]) Push(v T) { s.xs = append(s.xs, v) }\nfunc (s *St%d[T]) Len() int { return len(s.xs) }\nfunc (s *St%d[T]) Top() T { return s.xs[len(s.xs)-1] }\nfunc GI%d(x int) int { s := &St%d[int]{}; s.Push(x); s.Push(x * %d); return s.Top() + %d + (s.Len() - 2) }", j, j, j, j, j, j, d.a, d.b)
+	case dIfaceValue:
+		// a package-level interface value holding an interpreted type
+		return fmt.Sprintf("type I%d interface{ M(int) int }\ntype IT%d struct{ k int }\nfunc (t IT%d) M(x int) int { return x*%d + t.k }\nvar iv%d I%d = IT%d{k: %d}\nfunc IV%d(x int) int { return iv%d.M(x) }", j, j, j, d.a, j, j, j, d.b, j, j)
+	case dOnce:
+		// lazily built state behind sync.Once
+		return fmt.Sprintf("var on%d sync.Once\nvar tb%d []int\nfunc ON%d(x int) int { on%d.Do(func() { for i := 0; i < 4; i++ { tb%d = append(tb%d, i*%d) } }); return tb%d[1]*x + %d + (len(tb%d) - 4) }", j, j, j, j, j, j, d.a, j, d.b, j)
+	case dStructFunc:
+		// a named function stored in a field of a package-level struct
+		return fmt.Sprintf("func sf%d(x int) int { return x*%d + %d }\ntype SH%d struct{ f func(int) int }\nvar sh%d = SH%d{f: sf%d}\nfunc SF%d(x int) int { return sh%d.f(x) }", j, d.a, d.b, j, j, j, j, j, j)
 	case dCallChain:
 		return fmt.Sprintf("func ca%d(x int) int { return cb%d(x) + %d }\nfunc cb%d(x int) int { return cc%d(x) * %d }\nfunc cc%d(x int) int { if x > 100 { return x }; return x + 1 }", j, j, d.b, j, j, d.a, j)
 	}
@@ -118,6 +130,12 @@ func (d *c10Def) callee(j int) string {
 		return fmt.Sprintf("CB%d", j)
 	case dGeneric:
 		return fmt.Sprintf("GI%d", j)
+	case dIfaceValue:
+		return fmt.Sprintf("IV%d", j)
+	case dOnce:
+		return fmt.Sprintf("ON%d", j)
+	case dStructFunc:
+		return fmt.Sprintf("SF%d", j)
 	}
 	return ""
 }
@@ -139,7 +157,7 @@ func (d *c10Def) genericLit(j, sel int) string {
 // model applies one call and returns the expected result.
 func (d *c10Def) model(x int) int {
 	switch d.kind {
-	case dFunc, dClosureVar, dChanFunc, dLockedFunc, dChanState, dCallbackFunc, dGeneric:
+	case dFunc, dClosureVar, dChanFunc, dLockedFunc, dChanState, dCallbackFunc, dGeneric, dIfaceValue, dOnce, dStructFunc:
 		return x*d.a + d.b
 	case dMethod:
 		return x + d.b*d.a
@@ -283,6 +301,16 @@ func RunC10(t *testing.T, tape *Tape) *Outcome {
 				if err != nil {
 					setupErr = fmt.Sprintf("definition %d (%s) failed: %v", j, defKindName[d.kind], err)
 					return
+				}
+				if d.kind == dOnce {
+					// built now: a cancellation landing inside the lazy initialisation
+					// leaves it half done for good (sync.Once counts a cut-short
+					// function as done), which is inherent to stopping after the
+					// operation in flight and not what is judged here
+					if _, err := it.Eval(d.callee(j) + "(1)"); err != nil {
+						setupErr = fmt.Sprintf("warm-up of definition %d failed: %v", j, err)
+						return
+					}
 				}
 				v, err := it.Eval(d.callee(j))
 				if err == nil && v.IsValid() && v.Kind() == reflect.Func {
